@@ -53,12 +53,12 @@ Qed.
 
 Lemma reset_first_spec inc ttl now (b : tbucket) :
   1 <= ttl -> ttl < U32 -> now < B63 ->
-  reset_first trec trec_ops inc ttl now b = Ok (replace_first inc (fresh_reset ttl now) b).
+  reset_first trec trec_ops inc ttl now b = Ok (replace_first inc ttl (fresh_reset ttl now) b).
 Proof.
   intros H1 H2 H3. induction b as [|e b IH]; [reflexivity|].
   simpl. destruct (matches (c_id e) inc).
   - rewrite (reset_ttl_ok _ _ _ H1 H2 H3). reflexivity.
-  - rewrite IH. simpl. destruct (replace_first inc (fresh_reset ttl now) b); reflexivity.
+  - rewrite IH. simpl. destruct (replace_first inc ttl (fresh_reset ttl now) b) as [[r rv]|]; reflexivity.
 Qed.
 
 (* full functional statement of add_or_update on the Vec of one name *)
@@ -74,12 +74,12 @@ Proof.
   - rewrite (flush_pass_spec inc now b Hb Hn). simpl.
     rewrite (reset_first_spec inc ttl now _ H1 H2 Hn). simpl.
     unfold flush_entry. rewrite Ef. simpl.
-    destruct (replace_first _ _ _); reflexivity.
+    destruct (replace_first _ _ _ _) as [[? ?]|]; reflexivity.
   - simpl. rewrite (reset_first_spec inc ttl now _ H1 H2 Hn). simpl.
     unfold flush_entry. rewrite Ef. simpl.
     assert (map (fun e : tentry => e) b = b) as -> by apply map_id.
     assert (filter (fun _ : tentry => false) b = []) as -> by (clear; induction b; simpl; auto).
-    destruct (replace_first _ _ _); reflexivity.
+    destruct (replace_first _ _ _ _) as [[? ?]|]; reflexivity.
 Qed.
 
 (* ---- the specification in words ---- *)
@@ -144,47 +144,52 @@ Lemma flush_entry_flushed inc now (e : tentry) :
 Proof. intros H1 H2. unfold flush_entry. rewrite H1, H2. reflexivity. Qed.
 
 (* the incoming record ends up present with a fresh lifetime *)
-Lemma replace_first_some inc fresh (b b' : tbucket) :
-  replace_first inc fresh b = Some b' ->
+Lemma replace_first_some inc ttl fresh (b b' : tbucket) rv :
+  replace_first inc ttl fresh b = Some (b', rv) ->
   exists pre e post, b = pre ++ e :: post /\ b' = pre ++ mkC (c_id e) fresh :: post /\
-                     matches (c_id e) inc = true /\ Forall (fun x => matches (c_id x) inc = false) pre.
+                     matches (c_id e) inc = true /\ Forall (fun x => matches (c_id x) inc = false) pre /\
+                     rv = ((t_ttl (c_t e) <=? 1) && (1 <? ttl)).
 Proof.
   revert b'. induction b as [|e b IH]; intros b' H; [discriminate|].
   simpl in H. destruct (matches (c_id e) inc) eqn:Em.
   - inversion H; subst. exists [], e, b. repeat split; auto.
-  - destruct (replace_first inc fresh b) as [r|] eqn:Er; [|discriminate]. inversion H; subst.
-    destruct (IH r eq_refl) as (pre & x & post & -> & -> & Hm & Hpre).
+  - destruct (replace_first inc ttl fresh b) as [[r rv']|] eqn:Er; [|discriminate]. inversion H; subst.
+    destruct (IH r eq_refl) as (pre & x & post & -> & -> & Hm & Hpre & Hrv).
     exists (e :: pre), x, post. repeat split; auto.
 Qed.
 
-Lemma replace_first_none inc fresh (b : tbucket) :
-  replace_first inc fresh b = None -> Forall (fun x => matches (c_id x) inc = false) b.
+Lemma replace_first_none inc ttl fresh (b : tbucket) :
+  replace_first inc ttl fresh b = None -> Forall (fun x => matches (c_id x) inc = false) b.
 Proof.
   induction b as [|e b IH]; intros H; [constructor|].
   simpl in H. destruct (matches (c_id e) inc) eqn:Em; [discriminate|].
-  destruct (replace_first inc fresh b); [discriminate|]. constructor; auto.
+  destruct (replace_first inc ttl fresh b) as [[? ?]|]; [discriminate|]. constructor; auto.
 Qed.
 
 Lemma flush_entry_id inc now e : c_id (flush_entry inc now e) = c_id e.
 Proof. unfold flush_entry. destruct (_ && _); reflexivity. Qed.
 
-(* the shape of the result: either the first matching record is refreshed in place, or the
-   incoming record is put in front; all other positions hold flush_entry of the old record *)
+Lemma flush_entry_ttl inc now e : t_ttl (c_t (flush_entry inc now e)) = t_ttl (c_t e).
+Proof. unfold flush_entry. destruct (_ && _); reflexivity. Qed.
+
+(* the shape of the result: either the first matching record is refreshed in place (reported as
+   new exactly when it had TTL <= 1 and the incoming TTL is > 1), or the incoming record is put
+   in front; all other positions hold flush_entry of the old record *)
 Lemma aou_shape (b : tbucket) inc ttl now b' ts isnew :
   aou_spec b inc ttl now true = Some (b', ts, isnew) ->
   ts = map (fun _ => now + 1000) (filter (fun e => i_flush inc && flushable inc now e) b) /\
-  ((isnew = false /\ exists pre e post, b = pre ++ e :: post /\ matches (c_id e) inc = true /\
+  ((exists pre e post, b = pre ++ e :: post /\ matches (c_id e) inc = true /\
        Forall (fun x => matches (c_id x) inc = false) pre /\
+       isnew = ((t_ttl (c_t e) <=? 1) && (1 <? ttl)) /\
        b' = map (flush_entry inc now) pre ++ mkC (c_id e) (fresh_reset ttl now) :: map (flush_entry inc now) post)
    \/ (isnew = true /\ Forall (fun x => matches (c_id x) inc = false) b /\
        b' = mkC inc (fresh_new ttl now) :: map (flush_entry inc now) b)).
 Proof.
   unfold aou_spec. rewrite andb_false_r.
-  destruct (replace_first inc (fresh_reset ttl now) (map (flush_entry inc now) b)) as [b2|] eqn:Er;
+  destruct (replace_first inc ttl (fresh_reset ttl now) (map (flush_entry inc now) b)) as [[b2 rv]|] eqn:Er;
     intros H; inversion H; subst; split; try reflexivity.
-  - left. split; [reflexivity|].
-    apply replace_first_some in Er as (pre & e & post & Hb & Hb2 & Hm & Hpre).
-    (* split the original list at the same position *)
+  - left.
+    apply replace_first_some in Er as (pre & e & post & Hb & Hb2 & Hm & Hpre & Hrv).
     assert (exists pre0 e0 post0, b = pre0 ++ e0 :: post0 /\ pre = map (flush_entry inc now) pre0 /\
               e = flush_entry inc now e0 /\ post = map (flush_entry inc now) post0) as (pre0 & e0 & post0 & -> & -> & -> & ->).
     { clear -Hb. revert b Hb. induction pre as [|p pre IH]; intros b Hb.
@@ -193,7 +198,7 @@ Proof.
       - destruct b as [|p0 b]; [discriminate|]. simpl in Hb. inversion Hb; subst.
         destruct (IH b H1) as (pre0 & e0 & post0 & -> & -> & -> & ->).
         exists (p0 :: pre0), e0, post0. repeat split. }
-    exists pre0, e0, post0. rewrite flush_entry_id in *. repeat split; auto.
+    exists pre0, e0, post0. rewrite flush_entry_id, flush_entry_ttl in *. repeat split; auto.
     apply Forall_forall. intros x Hx. rewrite Forall_forall in Hpre.
     specialize (Hpre (flush_entry inc now x) (in_map _ _ _ Hx)). rewrite flush_entry_id in Hpre. exact Hpre.
   - right. split; [reflexivity|]. split; [|reflexivity].
@@ -257,4 +262,17 @@ Lemma ka_spec_complete (b : tbucket) now e :
 Proof.
   intros He Hf Hl. unfold ka_spec. rewrite in_flat_map. exists e. split; [exact He|].
   rewrite Hf. apply N.leb_le in Hl. rewrite Hl. simpl. left. reflexivity.
+Qed.
+
+(* Known finding C10-ka-shortened-record: the rule looks at created and ttl only. A shared record
+   whose expiry was shortened (cache-flush by a later record, verify) to less than half of its
+   lifetime is still listed, with the TTL it would have had. *)
+Lemma ka_shortened_refuted :
+  exists (b : tbucket) now e ttl,
+    In e b /\ In (c_id e, ttl) (ka_spec b now) /\
+    t_expires (c_t e) < now + 500 * t_ttl (c_t e) /\ ttl = 8 /\ t_expires (c_t e) - now = 1000.
+Proof.
+  exists [mkC (mkId [104;46] 1 1 false (RAddr [10;0;0;1]) 2) (mkT 10 1000000 1003300 1008000)], 1002300,
+         (mkC (mkId [104;46] 1 1 false (RAddr [10;0;0;1]) 2) (mkT 10 1000000 1003300 1008000)), 8.
+  repeat split; vm_compute; auto.
 Qed.
